@@ -1061,6 +1061,8 @@ class Executor:
                         n = n * s_
                     return n
             return VFunc('method:' + a, ('method', base, a))
+        if isinstance(base, (VSetView, VSetVal)) and a in _PURE_SET_METHODS:
+            return VFunc('setquery:' + a, ('setquery', base, a))
         if isinstance(base, VSetView):
             return VFunc('setmethod:' + a, ('setmethod', base, a))
         if isinstance(base, VOpaque):
@@ -1153,6 +1155,24 @@ class Executor:
                 if mname == 'dot' and len(args) == 1:
                     return vec_op('MatMult', vb, args[0])
                 return vec_op('call_' + mname, vb, *args)
+            if isinstance(f.fn, tuple) and f.fn[0] == 'setquery':
+                sa = self.as_set(st, f.fn[1], node)
+                mname = f.fn[2]
+                if mname == 'copy' and not args:
+                    return VSetVal(sa[0], sa[1])
+                if len(args) != 1:
+                    raise OutOfSubset('set.%s with %d arguments at line %d' % (mname, len(args), node.lineno))
+                sb = self.as_set(st, args[0], node)
+                if sb is None:
+                    raise OutOfSubset('set.%s with a non-set argument at line %d' % (mname, node.lineno))
+                if mname == 'issubset':
+                    return z3.IsSubset(sa[0], sb[0])
+                if mname == 'issuperset':
+                    return z3.IsSubset(sb[0], sa[0])
+                if mname == 'isdisjoint':
+                    return z3.SetIntersect(sa[0], sb[0]) == z3.EmptySet(sa[1])
+                op = {'union': z3.SetUnion, 'intersection': z3.SetIntersect, 'difference': z3.SetDifference}[mname]
+                return VSetVal(op(sa[0], sb[0]), sa[1])
             if isinstance(f.fn, tuple) and f.fn[0] == 'setmethod':
                 view, mname = f.fn[1], f.fn[2]
                 c = st.heap[view.ref.id]
@@ -1319,9 +1339,46 @@ class Executor:
         return r
 
     def e_GeneratorExp(self, node, st):
+        sv = self.sym_set_comp(node, st)
+        if sv is not None:
+            return sv
         return VTuple(self.comp_values(node, st))
 
+    def sym_set_comp(self, node, st):
+        """(x for x in S if cond(x)) over a symbolic set S: the set {x in S : cond(x)} (only meaningful where the consumer is
+        order- and multiplicity-insensitive: set(...), a set comprehension); None if the comprehension has another shape"""
+        if len(node.generators) != 1:
+            return None
+        g = node.generators[0]
+        if not (isinstance(g.target, ast.Name) and isinstance(node.elt, ast.Name) and node.elt.id == g.target.id):
+            return None
+        try:
+            sv = self.as_set(st, self.ev(g.iter, st), node)
+        except OutOfSubset:
+            return None
+        if sv is None or isinstance(sv[1], str):
+            return None
+        e = z3.Const(fresh_name(g.target.id), sv[1])
+        saved = dict(st.env)
+        npc, nobl = len(st.pc), len(self.obligations)
+        st.env[g.target.id] = e
+        conds = [z3.Select(sv[0], e)]
+        for cond in g.ifs:
+            t = self.truth(st, self.ev(cond, st), node)
+            conds.append(t if is_z3(t) else z3.BoolVal(bool(t)))
+        st.env = saved
+        # side conditions raised while evaluating the filter (index obligations, ...) must not depend on the bound element:
+        # they are then the same for every element and stand as generated
+        def mentions(fm):
+            return z3.is_expr(fm) and not z3.substitute(fm, (e, z3.Const(fresh_name('other'), sv[1]))).eq(fm)
+        if any(mentions(fm) for fm in st.pc[npc:]) or any(mentions(o.goal) for o in self.obligations[nobl:]):
+            raise OutOfSubset('comprehension filter with element-dependent side conditions at line %d' % node.lineno)
+        return VSetVal(z3.Lambda([e], z3.And(*conds)), sv[1])
+
     def e_SetComp(self, node, st):
+        sv = self.sym_set_comp(node, st)
+        if sv is not None:
+            return sv
         # a set built from finitely many symbolic elements: kept as the list of its generators' values
         r = Ref('setcomp')
         st.heap[r.id] = ListContent(self.comp_values(node, st))
@@ -1461,9 +1518,12 @@ class Executor:
         return res
 
     def exec_stmt_inner(self, s, st):
-        if self.contract.replace and self.cur_fn is self.fn and not isinstance(s, (ast.If, ast.For, ast.While, ast.With, ast.Try)):
+        if self.contract.replace and self.cur_fn is self.fn and not isinstance(s, (ast.For, ast.While, ast.With, ast.Try)):
             line = self.cur_fn.srcfile.line(s.lineno)
             for (pat, fn) in self.contract.replace:
+                # (a whole `if` statement is replaced only by a pattern that names it: one starting with `if `)
+                if isinstance(s, ast.If) and not pat.startswith('if '):
+                    continue
                 if re.search(pat, line):
                     self.used_checks.add(pat)
                     self.notes.append('statement `%s` replaced by its contract' % line.strip())
@@ -2331,7 +2391,11 @@ class Executor:
         old.env, old.pc, old.ctypes = dict(env), st.pc, st.ctypes
         old.heap = {k: v.copy() for k, v in st.heap.items()}
         for nme in spec.modifies:
-            v = env.get(nme)
+            path = nme.split('.')
+            v = env.get(path[0])
+            for a_ in path[1:]:
+                # `self.attr`: the object stored in that attribute of the receiver
+                v = st.heap[v.id].attrs.get(a_) if isinstance(v, Ref) and isinstance(st.heap[v.id], ObjContent) else None
             r = v.ref if isinstance(v, VPtr) else v
             if isinstance(r, Ref):
                 self.havoc_content(st, r)
@@ -2661,6 +2725,9 @@ def _b_zip(ex, st, node, *xs):
 
 def _b_bool(ex, st, node, x):
     return ex.truth(st, x, node)
+
+
+_PURE_SET_METHODS = ('issubset', 'issuperset', 'isdisjoint', 'union', 'intersection', 'difference', 'copy')
 
 
 def _b_isinstance(ex, st, node, *a):
